@@ -1,7 +1,7 @@
 ------------------------------- MODULE Props -------------------------------
 (***************************************************************************)
-(* The 18 properties of properties.jsonl (all except C10 and C17, which    *)
-(* have their own modules) as MONITORS over the observation alphabet.      *)
+(* Sixteen of the 18 properties of properties.jsonl (C10 and C17 have      *)
+(* their own modules) as MONITORS over the observation alphabet.           *)
 (*                                                                         *)
 (* A monitor is a pure function  MonStep(m, o)  from a monitor state and   *)
 (* one observation record to the next monitor state.  It never blocks; it  *)
